@@ -327,19 +327,20 @@ Section StepSpec.
     intro Ho. destruct (H4 Ho) as [E4 Hv]. split; [|exact Hv]. rewrite E4. rewrite <- app_assoc. reflexivity.
   Qed.
 
-  (* the clause as worded in the property: when the callback ran, it received the byte read from PBR:PC+1 *)
+  (* the clause as worded in the property: when the WDM callback ran in this step (it is then the newest event), it
+     received the byte just read from PBR:PC+1, which is also what the WDM field holds *)
   Lemma callbacks_clause_wdm s s' : callbacks_clause s s' ->
-    forall v0, In (EvWDM v0) (firstn 1 (trace s')) ->
+    forall v0, hd_error (trace s') = Some (EvWDM v0) ->
     exists rest, trace s' = EvWDM v0 :: EvR (get fPRK s' * 65536 + (get fPPC s' + 1) mod 65536) v0 :: rest /\ get fWDM s' = v0.
   Proof.
-    intros (_ & _ & tA & tC & o & v & _ & E & _ & [tC' EC] & CC & H4) v0 Hin.
+    intros (_ & _ & tA & tC & o & v & _ & E & _ & [tC' EC] & CC & H4) v0 Hhd.
     destruct (onwdm s && (o =? 66)) eqn:Ew.
     - apply andb_true_iff in Ew. destruct Ew as [_ Eo]. apply Z.eqb_eq in Eo. destruct (H4 Eo) as [E4 Hv].
-      rewrite E, E4 in *. simpl in Hin. destruct Hin as [Hin|[]]. inversion Hin; subst v0.
+      rewrite E, E4 in *. simpl in Hhd. inversion Hhd; subst v0.
       eexists. split; [reflexivity | exact Hv].
-    - exfalso. rewrite E, EC in Hin. destruct tC' as [|e tC'']; simpl in Hin.
-      + destruct Hin as [Hin|[]]. discriminate Hin.
-      + destruct Hin as [Hin|[]]. subst e. rewrite EC in CC. simpl in CC. discriminate CC.
+    - exfalso. rewrite E, EC in Hhd. rewrite EC in CC. destruct tC' as [|e tC'']; simpl in Hhd.
+      + discriminate Hhd.
+      + inversion Hhd; subst e. simpl in CC. discriminate CC.
   Qed.
 End StepSpec.
 
